@@ -105,7 +105,7 @@ class Frame:
 
     def mutate(self, node, regs, what):
         bad = self.arg_regions(regs)
-        self.sites.append((node.lineno, f"{what} (line {node.lineno}) touches only objects of this activation", not bad,
+        self.sites.append((node.lineno, f"{what} (statement #{node.lineno}) touches only objects of this activation", not bad,
                            sorted(map(str, bad))))
 
     def call(self, e, env):
